@@ -45,8 +45,8 @@ namespace {
 const int MAXN = 6;
 const double EPS = 2.220446049250313e-16;
 const double INF = std::numeric_limits<double>::infinity();
-const long EVAL_CAP_VERBOSE = 300000;
-const long EVAL_CAP = 700000;         // hard cap on objective evaluations of one optimisation: hang detector (7e5, not 1e6: about 5 s
+const long EVAL_CAP_VERBOSE = 120000;
+const long EVAL_CAP = 300000;         // hard cap on objective evaluations of one optimisation: hang detector (7e5, not 1e6: about 5 s
                                       // under ASan, the driver kills a run after 10 CPU-seconds)
 
 // ---- rarity of the triggers of findings that fire on the unchanged tree (by construction of the generator: one run in N
@@ -558,11 +558,10 @@ public:
       long capUsed = c.verbose > 0 ? EVAL_CAP_VERBOSE : EVAL_CAP;
       if (R.evalsInLastIteration > capUsed / 2)
         vfail("hang:eval-cap", "hang:eval-cap:" + O + capTrigger(), O + ": one iteration used more than " + std::to_string(capUsed / 2) + " objective evaluations (" + std::to_string(R.steps.size()) + " steps completed before)");
-      // Powell, the simplex and a meta-optimiser driving them stop on a RELATIVE function change, which is 0/0 once the value is exactly 0:
-      // with a minimum value of exactly 0 they legitimately run on until their own budget (1e6 steps) — inconclusive, not a violation
-      bool relativeStopUndefined = oc.c == 0 && (c.kind == O_POWELL || c.kind == O_DSM || c.kind == O_META);
-      if (R.evalsSinceImprovement > capUsed / 2 && !relativeStopUndefined)
-        vfail("hang:eval-cap", "hang:eval-cap:" + O + ":stagnant" + capTrigger(), O + ": still running after " + std::to_string(R.nEval) + " objective evaluations, the last " + std::to_string(R.evalsSinceImprovement) + " of them without any improvement of the best value seen (" + std::to_string(R.steps.size()) + " steps completed)");
+      // A run that reaches the cap with its own counter still below its budget (default 1e6 steps) has not overrun anything the statement
+      // bounds, even when it made no progress for a long time (cycling under a parameter-change stop condition, a relative stop test that is
+      // 0/0 at a minimum value of exactly 0, ...): inconclusive, counted, not reported.
+      if (R.evalsSinceImprovement > capUsed / 2) ctx.probe("eval-cap-stagnant-inconclusive");
       ctx.probe("eval-cap-inconclusive"); ctx.outcome("inconclusive"); return;
     }
 
@@ -816,7 +815,7 @@ public:
     i.tolerances["consistency"] = "optimize() == getFunctionValue() == objective at getParameters(): exact (same deterministic evaluator); objective's own parameters == getParameters(): exact";
     i.tolerances["convergence"] = "max-norm distance to the minimiser <= K * (D + floor); D = sqrt(2 tol / lmin) for absolute function-change stop conditions (Bfgs, ConjugateGradient, Simple*, Newton1D, Meta), sqrt(2 tol |fmin| / lmin) for the relative ones (Powell, DownhillSimplex), tol * |xmin| + 1e-10 for Brent / golden section; floor = sqrt(128 eps max(|fmin|, 1e-300) / lmin) + 64 eps |xmin|; lmin = smallest eigenvalue (curvature along the coordinate for 1-D optimisers); K = Bfgs 1e5, ConjugateGradient 500, Powell 3000, DownhillSimplex 5000 / 1e5 / 3e5 / 3e6 for dimensions 1 / 2-4 / 5 / 6, SimpleMulti/SimpleNewtonMulti 1000, Brent/BrentInward/GoldenSection 50, Newton1D 1e-6, Meta 1e5: each >= 100 x the worst ratio of 130 000 runs of the unchanged tree";
     i.tolerances["bracket-ties"] = "abscissae closer than 64 eps * max|x| count as equal when naming the middle point (rounding of the inward scan)";
-    i.assumptions = {"a run that reaches the harness's evaluation cap without progress is reported (stagnant) except for Powell / simplex / meta configurations on an objective whose minimum value is exactly 0, where the relative stop test is 0/0 and the run legitimately continues to its own budget",
+    i.assumptions = {"a run that reaches the harness's evaluation cap while the optimiser's own counter is still below its budget is inconclusive (counted, not reported), also when it made no progress for a long time: only ONE iteration consuming more than half the cap is reported as a hang",
                      
       "monotone decrease step by step, iteration counts, behaviour with a listener that modifies parameters or an objective returning NaN / raising: not asserted",
       "an exception derived from bpp::Exception leaving init()/optimize() is an accepted outcome (the interface documents it); under CONSTRAINTS_KEEP / CONSTRAINTS_IGNORE this includes ConstraintException when a step leaves the box; under CONSTRAINTS_AUTO a ConstraintException is a violation of the feasibility clause",
